@@ -3,6 +3,7 @@ package checks
 import (
 	"fmt"
 	"math/rand"
+	"net/http"
 	"strings"
 
 	"verif/internal/aspec"
@@ -196,6 +197,40 @@ func c01ExtraSpecs(c *core.Check, rng *rand.Rand) ([]*aspec.ASpec, []string) {
 		}
 		a.Paths = items
 		add("config:component-response-on-root-and-trailing-slash", a)
+	}
+	// every registered status code (and a few unregistered ones), documented inline and through a shared component
+	// response, with the client on: names and constants derived from a code must exist for all of them
+	{
+		var codes []int
+		for code := 100; code < 600; code++ {
+			if http.StatusText(code) != "" {
+				codes = append(codes, code)
+			}
+		}
+		codes = append(codes, 299, 499, 599)
+		for start := 0; start < len(codes); start += 8 {
+			end := start + 8
+			if end > len(codes) {
+				end = len(codes)
+			}
+			a, op := mk()
+			a.Responses = []aspec.NamedResponse{{Name: "SharedStatus", R: &aspec.Response{Desc: "s", Headers: []aspec.Header{{Name: "X-Why", Schema: str}}, Body: aspec.Body{K: "json", Schema: &str}}}}
+			op.Responses = nil
+			for i, code := range codes[start:end] {
+				rr := aspec.RespRef{Status: fmt.Sprint(code), R: &aspec.Response{Desc: "r", Body: aspec.Body{K: []string{"json", "none"}[i%2], Schema: &str}}}
+				if i == 3 {
+					rr = aspec.RespRef{Status: fmt.Sprint(code), Ref: "SharedStatus"}
+				}
+				op.Responses = append(op.Responses, rr)
+			}
+			op.Responses = append(op.Responses, aspec.RespRef{Status: "default", R: &aspec.Response{Desc: "d", Body: aspec.Body{K: "none"}}})
+			// a second operation uses the shared component under another code of the chunk
+			t2 := []aspec.Seg{{K: "lit", S: "again"}}
+			o2 := simpleOp("POST", t2)
+			o2.Responses = []aspec.RespRef{{Status: fmt.Sprint(codes[start]), Ref: "SharedStatus"}}
+			a.Paths = append(a.Paths, aspec.PathItem{Template: t2, Ops: []aspec.Op{o2}})
+			add(fmt.Sprintf("config:status-codes-%d-%d", codes[start], codes[end-1]), a)
+		}
 	}
 	// random compositions of the pipeline features (randkitchen.go), with and without client
 	{
